@@ -203,7 +203,8 @@ func init() {
 				o.Check(!r.Has(c), "group-limit-creates", "a group is created although the limit refused it", c)
 			}
 			// limit reached ⇒ counted before return
-			o.Forced(ga, "group-limit-forced", "a group-limit refusal must be counted", IsInstr(ginc), on, over)
+			lc := o.One(e.Calls(ga, "invoke:am/dispatch.Limits.MaxNumberOfAggregationGroups"), "group-limit-read", "groupAlert must read the group limit", ga)
+			o.ForcedAfter(lc, "group-limit-forced", "a group-limit refusal must be counted", IsInstr(ginc), on, over)
 		}
 		// API concurrency limiter
 		lh := o.Fn("(*am/api.API).limitHandler$1")
